@@ -5,7 +5,7 @@ from statuslib import coq_term
 
 PID = "C13"
 TARGETS = ["Run.vo"]
-IMPORTS = "From VF Require Import Base Show Gen_Errors Status Run."
+IMPORTS = "From VF Require Import Base Show Gen_Errors Status Contrib Run."
 ALLOWED_AXIOMS = []
 PROFILES = ["debug"]
 ASSUMPTIONS = ["device wired as examples/minimal_scpi.rs (the library VecErrorQueue as error queue, scpi_stb/scpi_cls/scpi_opc); "
@@ -45,7 +45,15 @@ def corpus():
     ]
 
 
+def long_history():
+    """more than 255 unread items: the count and the read-back order must still be exact"""
+    m = statuslib.msg_step
+    steps = [m([b"FOO"]) if i % 3 else m([b"*ERR %d" % (-(100 + i % 90))]) for i in range(300)]
+    steps += [m([b"SYST:ERR:COUN?;NEXT?"]), m([b"SYST:ERR:ALL?"]), m([b"SYST:ERR:COUN?"])]
+    return "dev " + "|".join(steps)
+
+
 def generate(rng, tier):
     n = 250 if tier == "quick" else 4000
-    return [statuslib.gen_history(rng, rng.choice([5, 10, 20, 30]) if tier == "thorough" else rng.choice([5, 10, 18]),
+    return [long_history()] + [statuslib.gen_history(rng, rng.choice([5, 10, 20, 30]) if tier == "thorough" else rng.choice([5, 10, 18]),
                                   {"fail": 4, "common": 5, "reg": 1, "cond": 0.5}) for _ in range(n)]
